@@ -93,6 +93,7 @@ func (lc *LineCharge) IsEmpty() bool {
 		lc.Code.IsEmpty() &&
 		lc.Reason == "" &&
 		(lc.Percent == nil || lc.Percent.IsZero()) &&
+		(lc.Rate == nil || lc.Rate.IsZero()) &&
 		lc.Amount.IsZero() &&
 		len(lc.Ext) == 0
 }
